@@ -14,7 +14,7 @@ NFT_PROBE_REQUIRED = [
     "issue_case_variant_ok", "issue_prefix_ok", "mint_ibc_rej", "ibc_edit_ok", "ibc_transfer_ok", "ibc_burn_ok",
     "ibc_handover_ok", "ibc_stranger_rej", "mint_bad_token_id_rej", "mint_sentinel_token_id_rej",
     "mint_len101_token_ok", "mint_len102_token_rej", "mint_uri256_ok", "mint_uri257_rej", "edit_uri257_rej",
-    "transfer_uri257_ok", "mint_badjson_rej", "edit_badjson_rej", "transfer_badjson_rej",
+    "transfer_uri257_rej", "mint_badjson_rej", "edit_badjson_rej", "transfer_badjson_rej",
     "mint_sentinel_name_ok", "mint_to_module_ok", "transfer_to_module_ok", "handover_to_module_ok",
     "module_sender_rej", "module_owned_token_rej", "mint_prefix_token_ok", "mint_case_token_ok",
     "mint_token_named_as_class_ok", "op_prefix_token_rej", "op_case_token_rej", "op_prefix_class_rej",
@@ -28,10 +28,10 @@ NFT_PROBE_REQUIRED = [
 
 # random histories mix "sensible" events with probes (every message x object state x role x ids of the wrong kind,
 # harness/cmd/nft/random.go; probe=<pct>, default 35); pre=1 starts from a genesis state holding an IBC-style class
-NFT_RND = T([dict(n=10, len=30, procs=5, cfg="users=3"), dict(n=10, len=30, procs=4, cfg="users=3,pre=1,uri257=1"),
-             dict(n=6, len=40, procs=3, cfg="users=4,pre=1,probe=60,uri257=1")],
+NFT_RND = T([dict(n=10, len=30, procs=5, cfg="users=3"), dict(n=10, len=30, procs=4, cfg="users=3,pre=1"),
+             dict(n=6, len=40, procs=3, cfg="users=4,pre=1,probe=60")],
             [dict(n=80, len=40, procs=6, cfg="users=3"), dict(n=80, len=40, procs=6, cfg="users=3,pre=1"),
-             dict(n=50, len=60, procs=4, cfg="users=4,pre=1,probe=60,uri257=1")])
+             dict(n=50, len=60, procs=4, cfg="users=4,pre=1,probe=60")])
 # multi-message transactions (runs of one signer's messages delivered as one real transaction)
 bundled(NFT_RND)
 # second generator mode (round 7, negative probing): GenSpecP over a universe of related / odd ids, the IBC-style
@@ -45,7 +45,9 @@ NFT_GEN = T([dict(cfg="GEN_NFT.cfg", num=10, depth=16, seeds=6),
              dict(cfg="GEN_NFT_probe.cfg", num=40, depth=16, seeds=3, driver_cfg="users=3,pre=1")])
 NFT_MC = T([dict(cfg="MC_NFT.cfg", timeout=900, heap="4g")], [dict(cfg="MC_NFT_big.cfg", timeout=3400, heap="4g")])
 NFT_SCN = [dict(file="scenarios/nft_coverage.ndjson", cfg="users=3"),
-           dict(file="scenarios/nft_probe.ndjson", cfg="users=3,pre=1")]
+           dict(file="scenarios/nft_probe.ndjson", cfg="users=3,pre=1"),
+           # regression of F37 (fixed in /repo 19c5b32): a transfer carrying a 257-byte uri is refused
+           dict(file="scenarios/nft_longuri.ndjson", cfg="users=3")]
 
 # histories recorded (VERIF_RECORD_DIR) for the cross-module checks C11 / C12
 RECORD = [dict(binary="nft", n=T(3, 12), len=30, cfg="users=3" + ",bundle=30")]
